@@ -56,6 +56,7 @@ def classes():
         def _render_(self, render_data, render_args):
             d = render_data[Renderable]
             tag = render_args[Probe].tag
+            z = render_args[Probe].z
             self.renders.append(
                 (d.frame_offset, d.seek_whence.name, tuple(d.size), d.duration if self.animated else None, tag, render_data.finalized)
             )
@@ -87,7 +88,10 @@ def classes():
             if dur is FrameDuration.DYNAMIC:
                 dur = 10 * (num + 1)
             w, h = d.size
-            ch = chr((65 if tag == "a0" else 97) + num % 26)
+            # letter = frame number; alphabet = render arguments (a0: A-Z, a1: a-z,
+            # z=-1: Greek capitals, z=-2: Cyrillic capitals - the two hash-colliding ints)
+            base = 0x391 if z == -1 else 0x410 if z == -2 else 65 if tag == "a0" else 97
+            ch = chr(base + num % 17)
             return Frame(num, dur, d.size, "\n".join([ch * w] * h))
 
         @classmethod
@@ -97,6 +101,7 @@ def classes():
 
     class ProbeArgs(ArgsNamespace, render_cls=Probe):
         tag: str = "a0"
+        z: int = 0
 
     class Other(Renderable):
         def _get_render_size_(self):
@@ -129,6 +134,17 @@ def decode_output(text: str):
         return ("irregular", text)
     (left,), (w,), (right,), (letter,) = lefts, widths, rights, letters
     return ((w, len(body)), (left, top, right, len(lines) - 1 - bottom), letter)
+
+
+ARGS = {"a0": ("a0", 0), "a1": ("a1", 0), "a2": ("a0", -1), "a3": ("a0", -2)}
+
+
+def decode_letter(letter: str):
+    o = ord(letter)
+    for name, base in (("a2", 0x391), ("a3", 0x410), ("a0", 65), ("a1", 97)):
+        if base <= o < base + 17:
+            return name, o - base
+    return "?", -1
 
 
 def make_padding(p):
@@ -223,9 +239,10 @@ class RealIter:
                     (w, h), margins, letter = dec
                     res["size"] = [w, h]
                     res["margins"] = list(margins)
-                    res["args"] = "a0" if letter.isupper() else "a1"
-                    if (ord(letter.upper()) - 65) != frame.number % 26:
-                        res["decode"] = f"output shows frame {ord(letter.upper()) - 65}, Frame.number={frame.number}"
+                    args_, shown = decode_letter(letter)
+                    res["args"] = args_
+                    if shown != frame.number % 17:
+                        res["decode"] = f"output shows frame {shown}, Frame.number={frame.number}"
                 if not self.definite and rendered:
                     r = self.probe.renders[-1]
                     res["seek"] = [r[0], r[1]]
@@ -245,7 +262,7 @@ class RealIter:
                 if v == "incompatible":
                     ra = RenderArgs(self.C["Other"])
                 else:
-                    ra = RenderArgs(self.C["Probe"], self.C["ProbeArgs"](v))
+                    ra = RenderArgs(self.C["Probe"], self.C["ProbeArgs"](*ARGS[v]))
                 it.set_render_args(ra)
             elif name == "set_render_size":
                 from term_image.geometry import Size
